@@ -44,12 +44,53 @@ def metamorphic(cases, obs):
     return bad
 
 
+RULES_TTL = """@prefix sh: <http://www.w3.org/ns/shacl#> . @prefix ex: <http://ex.org/> . @prefix owl: <http://www.w3.org/2002/07/owl#> . @prefix xsd: <http://www.w3.org/2001/XMLSchema#> .
+ex:Cond a sh:NodeShape ; %(csev)s sh:class ex:C1 .
+ex:Cond2 a sh:NodeShape ; %(csev2)s sh:property [ %(psev)s sh:path ex:p ; sh:minCount 1 ] .
+ex:R a sh:NodeShape ; sh:targetClass ex:C0 ; %(rsev)s
+  sh:rule [ a sh:TripleRule ; sh:condition ex:Cond %(second)s ; sh:subject sh:this ; sh:predicate ex:marked ; sh:object ex:Yes ] .
+ex:V a sh:NodeShape ; sh:targetSubjectsOf ex:marked ; %(vsev)s sh:property [ sh:path ex:q ; sh:minCount %(vmin)d ] .
+ex:W a sh:NodeShape ; sh:targetClass ex:C0 ; sh:severity sh:Warning ; sh:property [ sh:path ex:marked ; sh:maxCount 0 ] .
+"""
+
+
+def rules_family(rng, n):
+    """advanced mode: rules whose sh:condition shapes have waivable severities - the options must not change which rules fire"""
+    import rdflib
+    stats, fails = {"rule_condition_cases": 0, "rule_condition_nonconforming": 0}, []
+    sevs = ["", "", "sh:severity sh:Info ;", "sh:severity sh:Warning ;", "sh:severity sh:Violation ;"]
+    for _ in range(n):
+        data, nodes, lits = S.gen_typed_data(rng, n_iri=rng.randint(3, 5), n_bn=0, n_lit=1, n_triples=rng.randint(4, 10))
+        ttl = RULES_TTL % {"csev": rng.choice(sevs), "csev2": rng.choice(sevs), "psev": rng.choice(sevs), "rsev": rng.choice(sevs), "vsev": rng.choice(sevs),
+                           "second": rng.choice(["", "", ", ex:Cond2"]), "vmin": rng.choice([1, 1, 3])}
+        sg = rdflib.Graph().parse(data=ttl, format="turtle")
+        grp = [S.run_validate(data, sg, advanced=True, **o) for o in OPTS]
+        stats["rule_condition_cases"] += 1
+        if any(o[0] != "ok" for o in grp):
+            if len({o[0:2] for o in grp}) != 1:
+                fails.append({"what": "advanced mode: outcome kind differs between severity options: %r" % [o[0:2] for o in grp], "shapes_ttl": ttl, "data_nt": sorted(data.serialize(format="nt").split("\n"))})
+            continue
+        stats["rule_condition_nonconforming"] += 0 if grp[0][1] else 1
+        base = EC.keys(grp[0])
+        for o, opt in zip(grp, OPTS):
+            waived = ({SH.Info} if opt.get("allow_infos") else set()) | ({SH.Info, SH.Warning} if opt.get("allow_warnings") else set())
+            if EC.keys(o) != base:
+                fails.append({"what": "advanced mode (rules with sh:condition): %r changed the reported results" % (opt,), "shapes_ttl": ttl, "data_nt": sorted(data.serialize(format="nt").split("\n")),
+                              "default_results": base, "results": EC.keys(o)})
+                break
+            if o[1] != all(r[4] in waived for r in o[2]):
+                fails.append({"what": "advanced mode: verdict %s under %r but every-top-level-result-waived is %s" % (o[1], opt, not o[1]), "shapes_ttl": ttl, "data_nt": sorted(data.serialize(format="nt").split("\n"))})
+                break
+    return stats, fails, []
+
+
 def main(tier, seed, replay=None):
     rng = F.rng_for(seed, PROP)
     cases = gen_cases(rng, tier)
     return EC.standard_main(
         PROP, ["Props/C11.v"], tier, seed, cases,
-        rule="case = random nested shapes graph with sh:severity in {absent, Violation, Warning, Info, custom} at every level x data x the four allow_infos/allow_warnings combinations; relation checked on the real code: same result multiset, verdict = all top-level results waived, monotone; each run also compared with the model",
+        rule="case = random nested shapes graph with sh:severity in {absent, Violation, Warning, Info, custom} at every level x data x the four allow_infos/allow_warnings combinations; relation checked on the real code: same result multiset, verdict = all top-level results waived, monotone; each run also compared with the model; advanced mode: rule sets whose sh:condition shapes (and the shapes they feed) carry waivable severities x the four combinations: same results, verdict = all top-level results waived",
         what="results/verdict differ from the model of the severity waiver (Props.C11)",
         metamorphic=metamorphic,
+        extra_checks=lambda: rules_family(F.rng_for(seed, PROP + "/rules"), 60 if tier == "quick" else 900),
     )
